@@ -28,14 +28,18 @@ open Thin Thin.Inventory
 namespace Properties.C15
 
 /-- **Reload soundness** (all entries function-determining): if every entry is persisted or
-    constructor-determined, loading the saved values into a fresh instance reproduces the saved values. -/
+    constructor-determined, loading the saved values into a fresh instance reproduces the saved values.
+    `hctor` (two instances built from the same constructor arguments agree on constructor-determined entries) is asked
+    ONLY for the entries that do not travel in the state dict: a persisted entry flagged constructor-determined (BatchNorm
+    weights, running statistics, feature-index buffers …) may have been trained away from its constructor value before
+    saving — it is overwritten by the load, so the theorem applies after every training history. -/
 theorem reload_sound {V : Type} (inv : List Entry) (saved fresh : List V)
     (hlen1 : saved.length = inv.length) (hlen2 : fresh.length = inv.length)
     (hsafe : reloadSafe inv = true)
-    (hctor : ∀ i (h1 : i < inv.length), (inv[i]).ctorDetermined = true →
+    (hctor : ∀ i (h1 : i < inv.length), persisted inv[i] = false → (inv[i]).ctorDetermined = true →
       saved[i]'(hlen1 ▸ h1) = fresh[i]'(hlen2 ▸ h1)) :
     afterLoad inv saved fresh = saved :=
-  Inventory.reload_sound inv saved fresh hlen1 hlen2 hsafe hctor
+  Inventory.reload_sound_np inv saved fresh hlen1 hlen2 hsafe hctor
 
 /-- **What `load_state_dict` does, entry by entry** (this is what the driver is compared on). -/
 theorem afterLoad_entry {V : Type} (inv : List Entry) (saved fresh : List V) (i : Nat) (e : Entry) (s f : V)
@@ -45,13 +49,18 @@ theorem afterLoad_entry {V : Type} (inv : List Entry) (saved fresh : List V) (i 
 
 /-- **Same function after reload.**  `eval` is the module's function (forward, inverse and log_prob together, on
     all inputs: `R` is arbitrary) and reads only the entries flagged `used`.  If the inventory passes the check,
-    the reloaded instance evaluates exactly like the saved one. -/
+    the reloaded instance evaluates exactly like the saved one.
+    `hctor` is asked only for the entries that are NOT persisted and that the function reads (the only ones the proof
+    needs): the saved instance may have any training history on its persisted entries, constructor-determined or not, and
+    on entries the function does not read. -/
 theorem reload_same_function {V R : Type} (inv : List Entry) (used : List Bool) (eval : List V → R)
     (hdep : ∀ v w : List V, v.length = w.length → (∀ i, used.getD i true = true → v[i]? = w[i]?) → eval v = eval w)
     (saved fresh : List V) (hl1 : saved.length = inv.length) (hl2 : fresh.length = inv.length)
     (hsafe : reloadSafeU inv used = true)
-    -- two instances built from the same constructor arguments agree on constructor-determined entries
-    (hctor : ∀ (i : Nat) (e : Entry), inv[i]? = some e → e.ctorDetermined = true → saved[i]? = fresh[i]?) :
+    -- two instances built from the same constructor arguments agree on the constructor-determined entries that do not
+    -- travel in the state dict (and that the function reads)
+    (hctor : ∀ (i : Nat) (e : Entry), inv[i]? = some e → persisted e = false → used.getD i true = true →
+      e.ctorDetermined = true → saved[i]? = fresh[i]?) :
     eval (afterLoad inv saved fresh) = eval saved := by
   apply hdep
   · rw [afterLoad_length inv saved fresh hl1 hl2, hl1]
@@ -65,7 +74,7 @@ theorem reload_same_function {V R : Type} (inv : List Entry) (used : List Bool) 
       · simp [hp]
       · rcases reloadSafeU_spec inv used hsafe i _ he hu with h | h
         · exact absurd h hp
-        · have := hctor i _ he h
+        · have := hctor i _ he (by simpa using hp) hu h
           simp only [hp, Bool.false_eq_true, if_false]
           rw [← hf]; exact this.symm
     · have h1 : (afterLoad inv saved fresh).length ≤ i := by
@@ -76,42 +85,28 @@ theorem reload_same_function {V R : Type} (inv : List Entry) (used : List Bool) 
 /-- **Every history before saving.**  Start from an instance `built`; apply any finite history `h` of value updates
     (training steps, data-dependent initialisation, running-statistics updates, …) that touches only persisted
     entries (or entries the function does not read); save; load into a `fresh` instance built from the same
-    constructor arguments (possibly under another seed).  The reloaded instance evaluates like the saved one. -/
+    constructor arguments (possibly under another seed).  The reloaded instance evaluates like the saved one.
+    Now a corollary of `reload_same_function` (whose `hctor` no longer constrains persisted entries): the history leaves the
+    non-persisted entries the function reads where the constructor put them. -/
 theorem reload_after_history {V R : Type} (inv : List Entry) (used : List Bool) (eval : List V → R)
     (hdep : ∀ v w : List V, v.length = w.length → (∀ i, used.getD i true = true → v[i]? = w[i]?) → eval v = eval w)
     (built fresh : List V) (h : List (Nat × V))
     (hl1 : built.length = inv.length) (hl2 : fresh.length = inv.length)
     (hsafe : reloadSafeU inv used = true)
-    (hctor : ∀ (i : Nat) (e : Entry), inv[i]? = some e → e.ctorDetermined = true → built[i]? = fresh[i]?)
+    (hctor : ∀ (i : Nat) (e : Entry), inv[i]? = some e → persisted e = false → used.getD i true = true →
+      e.ctorDetermined = true → built[i]? = fresh[i]?)
     (hhist : ∀ p ∈ h, ∀ e : Entry, inv[p.1]? = some e → persisted e = true ∨ used.getD p.1 true = false) :
     eval (afterLoad inv (applyHist built h) fresh) = eval (applyHist built h) := by
-  apply hdep
-  · rw [afterLoad_length inv _ fresh (by rw [applyHist_length, hl1]) hl2, applyHist_length, hl1]
-  · intro i hu
-    have hls : (applyHist built h).length = inv.length := by rw [applyHist_length, hl1]
-    by_cases hi : i < inv.length
-    · have hs : (applyHist built h)[i]? = some ((applyHist built h)[i]'(hls ▸ hi)) := List.getElem?_eq_getElem _
-      have hf : fresh[i]? = some (fresh[i]'(hl2 ▸ hi)) := List.getElem?_eq_getElem _
-      have he : inv[i]? = some inv[i] := List.getElem?_eq_getElem _
-      rw [afterLoad_getElem? inv _ fresh i _ _ _ he hs hf]
-      by_cases hp : persisted inv[i] = true
-      · simp [hp]
-      · rcases reloadSafeU_spec inv used hsafe i _ he hu with hpe | hc
-        · exact absurd hpe hp
-        · -- a used, non-persisted entry is not touched by the history
-          have hunt : ∀ p ∈ h, p.1 ≠ i := by
-            intro p hpm hpi
-            rcases hhist p hpm inv[i] (by rw [hpi]; exact he) with h1 | h1
-            · exact hp h1
-            · rw [hpi, hu] at h1; exact Bool.noConfusion h1
-          have h1 := applyHist_getElem?_untouched built h i hunt
-          have h2 := hctor i _ he hc
-          simp only [hp, Bool.false_eq_true, if_false]
-          rw [← hf, h1, h2]
-    · have h1 : (afterLoad inv (applyHist built h) fresh).length ≤ i := by
-        rw [afterLoad_length inv _ fresh hls hl2]; omega
-      have h2 : (applyHist built h).length ≤ i := by omega
-      rw [List.getElem?_eq_none h1, List.getElem?_eq_none h2]
+  apply reload_same_function inv used eval hdep (applyHist built h) fresh (by rw [applyHist_length, hl1]) hl2 hsafe
+  intro i e he hp hu hc
+  -- a used, non-persisted entry is not touched by the history
+  have hunt : ∀ p ∈ h, p.1 ≠ i := by
+    intro p hpm hpi
+    rcases hhist p hpm e (by rw [hpi]; exact he) with h1 | h1
+    · rw [hp] at h1; exact Bool.noConfusion h1
+    · rw [hpi, hu] at h1; exact Bool.noConfusion h1
+  rw [applyHist_getElem?_untouched built h i hunt]
+  exact hctor i e he hp hu hc
 
 /-- with every entry counted as function-determining the two checkers coincide -/
 theorem reloadSafeU_all_used (inv : List Entry) : reloadSafeU inv [] = reloadSafe inv :=
@@ -172,5 +167,49 @@ example : afterLoad [⟨.bufPersistent, false⟩, ⟨.plain, true⟩] [10, 7] [2
 /-- a history that updates the persisted entry (index 0) twice, then save and reload -/
 example : afterLoad [⟨.bufPersistent, false⟩, ⟨.plain, true⟩] (applyHist [10, 7] [(0, 11), (0, 12)]) [20, 7] = [12, 7] := by
   decide
+
+/-- **applicability after a training step of a persisted constructor-initialised parameter** (audit C15 finding 1): entry 0
+    is a parameter flagged constructor-determined (e.g. a BatchNorm weight, initialised to the same value under every
+    seed), trained from `1` to `5` before saving; entry 1 a plain constructor-determined attribute.  The saved and the
+    fresh instance DIFFER on the constructor-determined entry 0, and the theorems apply: `load_state_dict` reproduces the
+    saved values and the saved function, for every `eval`. -/
+example : afterLoad [⟨.param, true⟩, ⟨.plain, true⟩] [5, 7] [1, 7] = ([5, 7] : List Nat) :=
+  reload_sound [⟨.param, true⟩, ⟨.plain, true⟩] [5, 7] [1, 7] rfl rfl (by decide) (by
+    intro i h1 hp hc
+    match i, h1 with
+    | 0, _ => simp [persisted] at hp
+    | 1, _ => rfl)
+
+example {R : Type} (eval : List Nat → R) :
+    eval (afterLoad [⟨.param, true⟩, ⟨.plain, true⟩] [5, 7] [1, 7]) = eval [5, 7] :=
+  reload_same_function [⟨.param, true⟩, ⟨.plain, true⟩] [] eval
+    (fun v w hl h => by
+      have : v = w := List.ext_getElem? fun i => h i (by simp)
+      rw [this])
+    [5, 7] [1, 7] rfl rfl (by decide) (by
+    intro i e he hp _ _
+    match i with
+    | 0 =>
+      simp only [List.getElem?_cons_zero, Option.some.injEq] at he
+      subst he
+      exact absurd hp (by decide)
+    | 1 => rfl
+    | (k + 2) => simp at he)
+
+/-- the same through the history form: the instance is built with the constructor value `1`, a training step moves the
+    persisted entry 0 to `5`, then save and reload into a fresh instance -/
+example {R : Type} (eval : List Nat → R) :
+    eval (afterLoad [⟨.param, true⟩, ⟨.plain, true⟩] (applyHist [1, 7] [(0, 5)]) [1, 7]) = eval (applyHist [1, 7] [(0, 5)]) :=
+  reload_after_history [⟨.param, true⟩, ⟨.plain, true⟩] [] eval
+    (fun v w hl h => by
+      have : v = w := List.ext_getElem? fun i => h i (by simp)
+      rw [this])
+    [1, 7] [1, 7] [(0, 5)] rfl rfl (by decide) (fun _ _ _ _ _ _ => rfl) (by
+    intro p hp e he
+    simp only [List.mem_singleton] at hp
+    subst hp
+    simp only [List.getElem?_cons_zero, Option.some.injEq] at he
+    subst he
+    exact Or.inl (by decide))
 
 end Properties.C15
